@@ -355,7 +355,7 @@ theorem lockUTXOs_frame {ins : List Input} {st st' : State} {t : Id} {fork : Boo
     | genesis => simp [lockUTXOs] at h
 
 theorem lockDeposit_frame {st st' : State} {k t : Id} {fork : Bool} (h : lockDeposit st k t fork = .ok st') :
-    st'.fin = st.fin ∧ st'.total = st.total ∧ st'.assetInfo = st.assetInfo := by
+    st'.fin = st.fin ∧ st'.total = st.total ∧ st'.assetInfo = st.assetInfo ∧ st'.utxo = st.utxo := by
   unfold lockDeposit at h
   split at h
   · cases h; simp
@@ -370,7 +370,7 @@ theorem lockDeposit_frame {st st' : State} {k t : Id} {fork : Bool} (h : lockDep
         · cases h
 
 theorem lockMint_frame {st st' : State} {b a t : Id} {fork : Bool} (h : lockMint st b a t fork = .ok st') :
-    st'.fin = st.fin ∧ st'.total = st.total ∧ st'.assetInfo = st.assetInfo := by
+    st'.fin = st.fin ∧ st'.total = st.total ∧ st'.assetInfo = st.assetInfo ∧ st'.utxo = st.utxo := by
   unfold lockMint at h
   split at h
   · cases h; simp
@@ -389,10 +389,10 @@ theorem lockInputsTxn_frame {st st' : State} {tx : Tx} {fork : Bool} (h : lockIn
   unfold lockInputsTxn at h
   split at h
   · split at h
-    · exact lockMint_frame h
+    · have f := lockMint_frame h; exact ⟨f.1, f.2.1, f.2.2.1⟩
     · cases h
   · split at h
-    · exact lockDeposit_frame h
+    · have f := lockDeposit_frame h; exact ⟨f.1, f.2.1, f.2.2.1⟩
     · cases h
   · exact lockUTXOs_frame h
 
